@@ -241,8 +241,11 @@ class Generator(ABC):
 
         def comment_filter(content: str):
             def neutralise(line: str) -> str:
-                # the text must not be able to end the comment, nor be read as a (possibly malformed) unicode escape by javac
-                return line.replace('*/', '&#42;/').replace('\\u', '&#92;u')
+                # the text must not be able to end the comment, be read as a (possibly malformed) unicode escape by javac,
+                # or continue a line comment onto the next generated line (backslash, optional white space, newline)
+                line = line.replace('*/', '&#42;/').replace('\\u', '&#92;u')
+                stripped = line.rstrip()
+                return stripped[:-1] + '&#92;' if stripped.endswith('\\') else line
 
             output = ""
             if self.comment_start_string is not None:
